@@ -5,11 +5,37 @@ correspondence: per-step refinement (Corr/CheckStage.v) incl. the destination ru
 search:         after every staging step: the staged listing equals the staged inventory, every staged path
                 is readable and returns the ingested bytes, staged files exist; staged objects stay committable
 """
-from vplib import common, histcheck, histeval
+from vplib import absinv, common, histcheck, histeval
+
+
+def reset_others_applied(run, st):
+    """a reset of literal paths that reports a failure (one of them cannot be restored: its name is a directory
+    now, or a part of it is a file) still restores every other named path of the previous version (fix 9f7da71)"""
+    op = st.op
+    if op["op"] != "reset" or st.rc == "ok" or st.rc == "panic" or op.get("recursive"):
+        return []
+    oid = op["id"]
+    pre, post = st.pre["staged"].get(oid), st.post["staged"].get(oid)
+    main = st.pre["main"].get(oid)
+    if not pre or not post or not main or any(ch in p for p in op["paths"] for ch in "*?[]{}"):
+        return []
+    prev = absinv.head_state_map(main[1])
+    now = absinv.head_state_map(post)
+    msgs = []
+    for p in op["paths"]:
+        p = p.strip("/")
+        if p not in prev:
+            continue
+        blocked = any(q.startswith(p + "/") for q in now) or any(p.startswith(q + "/") for q in now)
+        if not blocked and now.get(p) != prev[p]:
+            msgs.append("reset reported a failure and did not restore %r although nothing blocks it (staged: %r, previous version: %r)"
+                        % (p, now.get(p), prev[p]))
+    return msgs
 
 
 def hook(run, st):
     msgs = histeval.c09_staged_oracle(run, st)
+    msgs += reset_others_applied(run, st)
     if st.rc == "panic":
         msgs.append("operation panicked: %r" % (st.res.get("panic"),))
     if getattr(st, "final", False) and st.rc != "ok":
